@@ -371,4 +371,58 @@ OK("c06-benign-eq-else", "C06", "response.py",
    "        assert self.issue_instant_ok()\n        assert self.status_ok()\n        return self",
    "        assert self.status_ok()\n        assert self.issue_instant_ok()\n        return self")
 
+# ------------------------------------------------------------------ C07
+V("c07-apply-policy-removed", "C07", "server.py",
+  "        try:\n            ast.apply_policy(sp_entity_id, policy, self.metadata)\n        except MissingValue as exc:\n            if not best_effort:\n                return self.create_error_response(in_response_to, consumer_url,\n                                                  exc, sign_response)\n",
+  "", rule="R1")
+V("c07-apply-policy-only-if-metadata", "C07", "server.py",
+  "        try:\n            ast.apply_policy(sp_entity_id, policy, self.metadata)\n        except MissingValue as exc:",
+  "        try:\n            if self.metadata:\n                ast.apply_policy(sp_entity_id, policy, self.metadata)\n        except MissingValue as exc:",
+  rule="R1")
+V("c07-handler-broadened", "C07", "server.py",
+  "        except MissingValue as exc:\n            if not best_effort:",
+  "        except Exception as exc:\n            if not best_effort:", rule="R1")
+V("c07-arms-swapped", "C07", "assertion.py",
+  "            if key in ava:\n                self[key] = ava[key]\n            else:\n                del self[key]",
+  "            if key not in ava:\n                self[key] = val\n            else:\n                self[key] = ava[key]",
+  rule="R2")
+V("c07-drop-arm-removed", "C07", "assertion.py",
+  "            if key in ava:\n                self[key] = ava[key]\n            else:\n                del self[key]",
+  "            if key in ava:\n                self[key] = ava[key]", rule="R2")
+V("c07-unrestricted-kept", "C07", "assertion.py",
+  "        except KeyError:\n            del ava[attr]\n        else:\n            if _rests is None:",
+  "        except KeyError:\n            continue\n        else:\n            if _rests is None:",
+  rule="R3")
+V("c07-nomatch-kept", "C07", "assertion.py",
+  "            if rvals:\n                ava[attr] = list(set(rvals))\n            else:\n                del ava[attr]",
+  "            if rvals:\n                ava[attr] = list(set(rvals))", rule="R3")
+V("c07-match-ignored", "C07", "assertion.py",
+  "                    if restr.match(val):\n                        rvals.append(val)",
+  "                    rvals.append(val)", rule="R3")
+V("c07-filter-values-all", "C07", "assertion.py",
+  "    for val in vlist:\n        if val in vals:\n            res.append(val)",
+  "    for val in vlist:\n        res.append(val)", rule="R3")
+V("c07-filter-result-ignored", "C07", "assertion.py",
+  "            _ava = filter_attribute_value_assertions(_ava, _rest)\n        elif _ava is None:",
+  "            filter_attribute_value_assertions(_ava.copy(), _rest)\n        elif _ava is None:",
+  rule="R4")
+V("c07-restrictions-only-without-ec", "C07", "assertion.py",
+  "        _rest = self.get_attribute_restrictions(sp_entity_id)\n        if _rest:",
+  "        _rest = self.get_attribute_restrictions(sp_entity_id)\n        if _rest and _ava is None:",
+  rule="R4")
+V("c07-filter-returns-input", "C07", "assertion.py",
+  "        if _ava is None:\n            return {}\n        else:\n            return _ava",
+  "        if not _ava:\n            return ava\n        else:\n            return _ava",
+  rule="R4")
+V("c07-error-branch-removed", "C07", "server.py",
+  "            if not best_effort:\n                return self.create_error_response(in_response_to, consumer_url,\n                                                  exc, sign_response)",
+  "            logger.error('missing value: %s', exc)", rule="R5")
+V("c07-new-unfiltered-construction", "C07", "server.py",
+  "    def gather_authn_response_args(self,",
+  "    def quick_assertion(self, identity, sp_entity_id, policy):\n        ast = Assertion(identity)\n        return ast.construct(sp_entity_id, self.config.attribute_converters,\n                             policy, issuer=self._issuer(), farg={'subject': {}})\n\n    def gather_authn_response_args(self,",
+  rule="R1")
+OK("c07-benign-commit-rewrite", "C07", "assertion.py",
+   "            if key in ava:\n                self[key] = ava[key]\n            else:\n                del self[key]",
+   "            if not key in ava:\n                del self[key]\n            else:\n                self[key] = ava[key]")
+
 VARIANTS[:] = [v for v in VARIANTS if v]
